@@ -558,6 +558,12 @@ func c09Mirror(p *Prog, r *Report) {
 							return intVal(mirrorLen), true
 						}
 					}
+					// copy(arr, arr[1:]) moves len-1 elements and says so
+					if c, ok := e.(*ast.CallExpr); ok && len(c.Args) == 2 && isArr(c.Args[0]) {
+						if id, ok := c.Fun.(*ast.Ident); ok && id.Name == "copy" && arrShapeWith(info, c.Args[1], isArr) == "reslice-from-1" {
+							return intVal(mirrorLen - 1), true
+						}
+					}
 					return nil, false
 				}
 				// bounds written with locals (last := len(arr)-1; arr = arr[:last]) are read off the evaluated values
@@ -880,7 +886,20 @@ func c17Guards(p *Prog, r *Report) {
 		valObj := loop.val
 		env := &Env{P: p, Pkg: fi.Pkg, Vars: map[types.Object]*Val{}}
 		if recv := paramObjs(loop.owner)[-1]; recv != nil {
-			env.Vars[recv] = &Val{Ptr: &Val{Fields: map[string]*Val{"maxCount": intVal(limit)}}}
+			// the limit is the use case's integer field, whatever it is called
+			flds := map[string]*Val{"maxCount": intVal(limit)}
+			rt := recv.Type()
+			if pt, ok := rt.(*types.Pointer); ok {
+				rt = pt.Elem()
+			}
+			if st, ok := rt.Underlying().(*types.Struct); ok {
+				for i := 0; i < st.NumFields(); i++ {
+					if bt, ok := st.Field(i).Type().Underlying().(*types.Basic); ok && bt.Info()&types.IsInteger != 0 {
+						flds[st.Field(i).Name()] = intVal(limit)
+					}
+				}
+			}
+			env.Vars[recv] = &Val{Ptr: &Val{Fields: flds}}
 		}
 		item := &Val{Fields: map[string]*Val{"Count": intVal(count), "Path": strVal("/r"), "Root": strVal("/r"), "Name": strVal("old"), "Free": intVal(1)}}
 		env.Hook = func(env *Env, e ast.Expr) (*Val, bool) {
